@@ -1098,6 +1098,17 @@ def check_upgrade(h, f=None):
                              % impl, 'session %s was opened over WebSocket '
                              'but reports polling at t=%.4f' % (sid, t)))
                 break
+        # PONG 'probe' answers nothing but PING 'probe'
+        for u in c.upgrades:
+            conn = u['conn']
+            if conn.recv_s and conn.recv_s[0][2] != '2probe' and \
+                    any(d == '3probe' for (_s, _t, d) in conn.sent_s):
+                out.append(V('upgrade-only-via-handshake',
+                             '%s|probe-answered-to-non-probe' % impl,
+                             'session %s: the server answered PONG probe '
+                             'although the first frame on the upgrade socket '
+                             'was %r' % (sid, _short(conn.recv_s[0][2]))))
+                break
         # failed handshakes are harmless
         for n, (hs, u) in enumerate(done):
             if hs[0] or u.get('ok'):
@@ -1320,6 +1331,23 @@ def check_heartbeat(h, f=None):
                                  'session %s: poll %d timed out with an '
                                  'error but the session got no disconnect '
                                  'event' % (sid, req.rid)))
+        # (c) detection bound: last PONG + I + 3T = unanswered PING + 3T
+        if f.monitor and dsc is not None and not f.has_sleep:
+            sil = [cz for cz in f.causes(sid) if cz['kind'] == 'silence' and
+                   cz.get('resumed') is None]
+            if sil:
+                cz = min(sil, key=lambda x: x['t'])
+                deadline = cz['t'] + 2 * T
+                if dsc['t'] > deadline + 2 * TICK:
+                    out.append(V('detection-bound',
+                                 '%s|silence-detected-late' % impl,
+                                 'session %s: PING of t=%.4f was never '
+                                 'answered; the session was dropped (%r) at '
+                                 't=%.4f, later than PING + 3 x ping_timeout '
+                                 '= %.4f (%d sessions, interval %.4g, '
+                                 'timeout %.4g)' % (
+                                     sid, cz['t'] - T, dsc['arg'], dsc['t'],
+                                     deadline, len(f.sess), I, T)))
         # monitor off: the first send after the deadline detects the silence
         if not f.monitor and not s['disconnect']:
             for cz in f.causes(sid):
